@@ -96,3 +96,160 @@ def solve_loop_tie(res, prop, rng, func, pattern, runs, opname, bname, embed, ma
                            "impl_outcome": "shape %s" % (list(exp.shape),), "model_outcome": "%s ; max deviation %.3g" % (mo[:200], worst),
                            "note": "a quantity stored by the running AMEn loop differs from the Lean kernel / fold evaluated on the operands of the run"}, no_input=True)
     return len(lines)
+
+
+def _mat_tokens(m):
+    m = m.detach()
+    return [str(m.shape[0]), str(m.shape[1])] + __import__("common").tensor_tokens(m)
+
+
+def _model_cores(mo):
+    from common import parse_tt
+    kind, cores = parse_tt(mo)
+    out = []
+    for (r0, m, n, r1, vals) in cores:
+        out.append(tn.tensor([float(v[0]) for v in vals], dtype=tn.float64).reshape(r0, m, n, r1))
+    return out
+
+
+def update_loop_tie(res, prop, rng, func, pats, runs, opname=None, embed=False, res_rule=True, max_events=6):
+    """The block AFTER the local solve of an AMEn routine, observed in the running function and recomputed by the Lean model
+    (TTModel/AmenStep.lean; theorems TT.C12d):
+      * (res_rule) `res_new` / `res_old` are the true relative residuals of the local system for the new / previous local solution
+        (local operator = Kern.localProduct on the environments of the run),
+      * (res_rule) the bond rank chosen by the residual scan equals Amen.rankByResidual on the recorded test outcomes (which are re-derived
+        here from the recorded residuals and the threshold max(real_tol*damp, res_new)),
+      * the two cores written back (x_cores[k], x_cores[k+1]·norm_now) equal Amen.updatePlain / updateEnrich applied to the truncated factors,
+        the enrichment block and the QR factors of the run; and the hypothesis of the theorems (Q·R = [u | uk]) holds for those factors.
+    `pats`: dict name -> source text of the observation line in `func`."""
+    from trace import LocalsTracer
+    from common import tensor_tokens
+    lines, checks, broken = [], [], []
+    stats = {"events": 0, "enriched": 0, "plain": 0, "rank_rules": 0, "residuals": 0, "truncating": 0}
+    for label, thunk in runs:
+        st = {"n": 0, "scan": [], "vt": None, "qr": None}
+
+        def on(name, loc, label=label, st=st):
+            k = loc["k"]
+            d = len(loc["x_cores"])
+            if name == "res":
+                if st["n"] >= max_events:
+                    return
+                sol = loc["solution_now"].detach().clone().to(tn.float64)
+                prev = loc["previous_solution"].detach().clone().to(tn.float64)
+                xk = loc["x_cores"][k]
+                Ac = loc[opname].cores[k]
+                Ac = diag_embed_core(Ac) if embed else Ac
+                PL, PR = loc["Phis"][k], loc["Phis"][k + 1]
+                rhs = loc["rhs"].detach().clone().to(tn.float64).reshape(-1)
+                nr = float(loc["norm_rhs"])
+                for which, vec, got in (("res_new", sol, float(loc["res_new"])), ("res_old", prev, float(loc["res_old"]))):
+                    u = vec.reshape(xk.shape[0], xk.shape[1], xk.shape[-1])
+                    lines.append(J("localprod", dense_tokens(PL.to(tn.float64)), dense_tokens(PR.to(tn.float64)), core_tokens(Ac.to(tn.float64)), core_tokens(u)))
+                    checks.append(("residual", label + "/" + which, {"rhs": rhs, "nr": nr, "got": got, "single": bool(loc.get("use_single_precision", False)) and not loc["use_full"]}))
+                st["scan"] = []
+            elif name == "scan":
+                thr = max(float(loc["real_tol"]) * float(loc["damp"]), float(loc["res_new"]))
+                st["scan"].append((int(loc["r"]), float(loc["res"]), thr))
+            elif name == "vt":
+                # just before `v = v.t()`: u = U[:, :r], v = diag(s[:r]) V[:r, :]
+                st["vt"] = {"k": k, "u": loc["u"].detach().clone(), "w": loc["v"].detach().clone(), "r": int(loc["r"]),
+                            "sol": loc["solution_now"].detach().clone(), "n": int(loc["s"].numel()) if k < d - 1 else None,
+                            "rmax": int(loc["rmax"][k + 1]) if k < d - 1 else None, "scan": list(st["scan"]),
+                            "rule": res_rule and k < d - 1 and loc.get("trunc_norm", "res") != "fro"}
+                st["scan"] = []
+                st["qr"] = None
+            elif name == "qr":
+                st["qr"] = {"Q": loc["u"].detach().clone(), "R": loc["Rmat"].detach().clone(), "uk": loc["uk"].detach().clone()}
+            elif name == "set":
+                vt = st["vt"]
+                if vt is None or vt["k"] != k or st["n"] >= max_events:
+                    return
+                st["n"] += 1
+                stats["events"] += 1
+                nxt_old = loc["x_cores"][k + 1].detach().clone()
+                new_k = loc["u"].detach().clone()
+                new_k1 = (loc["v"].detach().clone() * float(loc["norm_now"]))
+                shp = list(loc["x_cores"][k].shape)
+                rows = vt["u"].shape[0]
+                solcore = vt["sol"].reshape(shp[:-1] + [vt["sol"].shape[1]])
+                toks = ["amenupd", core_tokens(solcore), core_tokens(nxt_old), vt["r"], _mat_tokens(vt["u"]), _mat_tokens(vt["w"])]
+                if st["qr"] is not None:
+                    q = st["qr"]
+                    ukm = q["uk"].reshape(rows, -1)
+                    toks += [1, ukm.shape[1], _mat_tokens(ukm), q["Q"].shape[1], _mat_tokens(q["Q"]), _mat_tokens(q["R"])]
+                    # hypothesis of updateEnrich_chain on the factors of the run
+                    M = tn.cat((vt["u"], ukm), 1)
+                    dev = float((q["Q"] @ q["R"] - M).abs().max()) / max(1.0, float(M.abs().max()))
+                    checks_h = dev
+                    stats["enriched"] += 1
+                else:
+                    toks += [0]
+                    checks_h = 0.0
+                    stats["plain"] += 1
+                lines.append(J(*toks))
+                checks.append(("update", label + "/core%d" % k, {"k": new_k.reshape(shp[0], shp[1], -1, new_k.shape[-1]) if len(shp) == 3 else new_k.reshape(shp[0], shp[1], shp[2], -1),
+                                                                 "k1": new_k1.reshape(new_k1.shape[0], new_k1.shape[1], -1, new_k1.shape[-1]), "qr_dev": checks_h}))
+                if vt["r"] < min(vt["u"].shape[0], vt["sol"].shape[1]):
+                    stats["truncating"] += 1
+                if vt["rule"]:
+                    n = vt["n"]
+                    bads = [0] * (n - 1)
+                    for (r, rs, thr) in vt["scan"]:
+                        if 1 <= r <= n - 1:
+                            bads[r - 1] = 1 if rs > thr else 0
+                    lines.append(J("rankres", n, vt["rmax"], bads))
+                    checks.append(("rank", label + "/core%d" % k, {"r": vt["r"], "scan": vt["scan"]}))
+                    stats["rank_rules"] += 1
+                st["vt"] = None
+        tr = LocalsTracer(func, pats, on)
+        if tr.missing:
+            broken.append("%s: source pattern(s) %s not found" % (func.__name__, [pats[m] for m in tr.missing]))
+            continue
+        try:
+            with tr:
+                thunk()
+        except Exception as e:
+            broken.append("%s raised under tracing: %s: %s" % (func.__name__, type(e).__name__, str(e)[:160]))
+    for bmsg in broken:
+        res.violation({"property": prop, "kind": "correspondence", "class": "amen-update/trace", "case": bmsg, "impl_outcome": bmsg,
+                       "model_outcome": "observation points around the core update", "note": "the update tie of %s cannot be established" % func.__name__}, no_input=True)
+    if not lines:
+        return stats
+    outs = run_driver(lines)
+    for line, (kind, lab, info), mo in zip(lines, checks, outs):
+        res.model_cases += 1
+        bad = None
+        if kind == "residual":
+            toks = mo.split()
+            if toks[0] != "dn":
+                bad = "model: " + mo[:100]
+            else:
+                nd = int(toks[1])
+                vals = tn.tensor([float(parse_num(t)[0]) for t in toks[2 + nd:]], dtype=tn.float64)
+                true = float(tn.linalg.norm(vals - info["rhs"])) / info["nr"] if info["nr"] > 0 else 0.0
+                tol = (1e-4 if info["single"] else 1e-7) * max(true, 1e-6) + (1e-5 if info["single"] else 1e-11)
+                stats["residuals"] += 1
+                if not abs(true - info["got"]) <= tol:
+                    bad = "the loop's %s = %.6g but the relative residual of the local system is %.6g" % (lab.split("/")[-1], info["got"], true)
+        elif kind == "rank":
+            if mo.split()[:1] != ["sc"] or int(mo.split()[1]) != info["r"]:
+                bad = "bond rank used %d, rank rule on the recorded tests %s gives %s" % (info["r"], info["scan"], mo)
+        else:
+            try:
+                mk, mk1 = _model_cores(mo)
+                dev = max(float((mk - info["k"].to(tn.float64)).abs().max()) / max(1.0, float(mk.abs().max())) if list(mk.shape) == list(info["k"].shape) else float("inf"),
+                          float((mk1 - info["k1"].to(tn.float64)).abs().max()) / max(1.0, float(mk1.abs().max())) if list(mk1.shape) == list(info["k1"].shape) else float("inf"))
+            except Exception as e:
+                dev = float("inf")
+            if not dev <= 1e-9:
+                bad = "the cores written back differ from Amen.update on the factors of the run (max relative deviation %.3g)" % dev
+            elif not info["qr_dev"] <= 1e-9:
+                bad = "QR factors of the enrichment do not reconstruct [u | uk] (deviation %.3g): hypothesis of updateEnrich_chain" % info["qr_dev"]
+        if bad is None:
+            res.core_equal += 1
+        else:
+            res.violation({"property": prop, "kind": "correspondence", "class": "amen-update/" + kind + "/" + lab, "case": line[:1500],
+                           "impl_outcome": bad, "model_outcome": mo[:300],
+                           "note": "a quantity of the running AMEn core update differs from the Lean model evaluated on the data of the run"}, no_input=True)
+    return stats
